@@ -317,3 +317,11 @@ def c14(tier, seed):
                       "seeded delay injection at the hook points, reports classified by address: inside a chunk buffer = violation, "
                       "elsewhere = logged out-of-scope; distinct = distinct (kind, n, T, schedule signature)",
                       agg.samples, extra, min_evaluations=2000)
+
+
+import cliprops  # noqa: E402
+
+
+@prop("C17")
+def c17(tier, seed):
+    return cliprops.c17(tier, seed)
